@@ -1,8 +1,15 @@
 #!/bin/bash
-# seed_run.sh <ID> <patch> [tier]  — apply a seeded change to /repo, run the check, undo it straight afterwards
+# seed_run.sh <ID> <patch> [tier] — run a check against a seeded change.
+# The change is applied in a throw-away worktree of /repo (VERIF_REPO points the check at it), so
+# /repo itself is never modified and several seeds can be tried while other work goes on.
+# Evidence and replays of such runs go to a scratch directory, never to /verif/evidence.
 id=$1; patch=$2; tier=${3:-quick}
-cd /repo && git apply $patch || { echo "cannot apply $patch"; exit 2; }
-cd /verif && ./bin/check $id --tier $tier > /var/tmp/seedrun_$$.log 2>&1; rc=$?
-git -C /repo checkout -- .
-echo "SEEDRUN $id $(basename $patch) tier=$tier rc=$rc $(grep -c '^VIOLATION' /var/tmp/seedrun_$$.log) violation lines; $(grep -E '^  C[0-9]+:' /var/tmp/seedrun_$$.log | sort | uniq -c | head -3 | tr '\n' ';')"
-tail -1 /var/tmp/seedrun_$$.log; rm -f /var/tmp/seedrun_$$.log
+wt=/var/tmp/seedrepo-$$
+git -C /repo worktree add -q --detach $wt HEAD || exit 2
+( cd $wt && git apply $patch ) || { echo "cannot apply $patch"; git -C /repo worktree remove --force $wt; exit 2; }
+out=/var/tmp/seedout-$$; mkdir -p $out
+cd /verif && VERIF_REPO=$wt VERIF_SCRATCH=/var/tmp/verif-seed-$$ VERIF_OUT_DIR=$out ./bin/check $id --tier $tier > $out/log 2>&1; rc=$?
+git -C /repo worktree remove --force $wt
+echo "SEEDRUN $id $(basename $patch) tier=$tier rc=$rc $(grep -c '^VIOLATION' $out/log) violation lines; $(grep -E '^  C[0-9]+:' $out/log | sort | uniq -c | head -3 | tr '\n' ';')"
+grep -E "^INCONCLUSIVE" $out/log | head -3 | cut -c1-300
+tail -1 $out/log; rm -rf $out
